@@ -43,6 +43,28 @@ pub fn derive_seed(seed: u64, stream: u64) -> u64 {
     z ^ (z >> 31)
 }
 
+/// Evaluates a case; a panic of the code under test (in-process engines) becomes a violation of
+/// that case, with `replay(message)` as its replay data.
+pub fn catch_case(signature: &str, replay: impl FnOnce(&str) -> Value, f: impl FnOnce() -> CaseResult) -> CaseResult {
+    match std::panic::catch_unwind(std::panic::AssertUnwindSafe(f)) {
+        Ok(r) => r,
+        Err(p) => {
+            let what = p
+                .downcast_ref::<String>()
+                .cloned()
+                .or_else(|| p.downcast_ref::<&str>().map(|s| s.to_string()))
+                .unwrap_or_else(|| "non-string panic payload".into());
+            let msg = format!("panic while the case was evaluated in-process: {}", what.lines().next().unwrap_or(""));
+            CaseResult {
+                violation: Some(msg.clone()),
+                signature: Some(signature.to_string()),
+                replay: replay(&msg),
+                ..Default::default()
+            }
+        }
+    }
+}
+
 pub struct PropRun<'a> {
     pub ctx: &'a Ctx,
     pub engine: &'a str,
@@ -79,12 +101,20 @@ where
     S: Strategy<Value = T>,
     F: Fn(&T) -> CaseResult,
 {
+    // a panic of the code under test while a case is evaluated is a failure of that case (with
+    // the case as replay), not the end of the whole check
+    let eval = |case: &T| -> CaseResult {
+        let engine = pr.engine.to_string();
+        let debug = format!("{:?}", case);
+        catch_case(&format!("{}:panic", engine.to_lowercase()), move |msg| json!({"engine": engine, "case_debug": debug, "message": msg}), || eval(case))
+    };
     let part = RefCell::new(Part::new(pr.engine, pr.rule));
     let failed = RefCell::new(false);
     let mut runner = TestRunner::new(proptest_config(cases, seed, pr.max_shrink_iters));
     let started = std::time::Instant::now();
     let budget = part_budget(pr.ctx);
     let result = runner.run(&strategy, |case| {
+        let eval = &eval;
         if started.elapsed() > budget {
             if !*failed.borrow() {
                 let mut p = part.borrow_mut();
